@@ -135,9 +135,11 @@ package csv
 //@ func (*CSVTable).Render
 //@   tags C09,C10
 //@   requires ct != nil && tbl(ct.Table) && tab(ct).nColumns <= 1099511627774
-//@   assigns heap[tabular.propertyImpl.properties], new(tabular.valueProperty), tab(ct).ErrorContainer.errors_, elemscap(tab(ct).ErrorContainer.errors_), ghost cbErrN, ghost cbErrLog, ghost cbCallN, ghost cbCallSelf, ghost cbCallOwner, ghost stage, ghost fires, ghost stageR, ghost firesR, ghost stageT, ghost stageC, ghost Wn, ghost Wchunk, ghost Wfailed, ghost csvRecN, ghost csvRecStart, ghost csvRecCells
+//@   assigns heap[tabular.propertyImpl.properties], new(tabular.valueProperty), tab(ct).ErrorContainer.errors_, elemscap(tab(ct).ErrorContainer.errors_), ghost cbErrN, ghost cbErrLog, ghost cbCallN, ghost cbCallSelf, ghost cbCallOwner, ghost stage, ghost fires, ghost stageR, ghost firesR, ghost stageT, ghost stageC, ghost renderStart, ghost Wn, ghost Wchunk, ghost Wfailed, ghost csvRecN, ghost csvRecStart, ghost csvRecCells
 //@   ensures [error-means-no-text] result1 != nil ==> result0 == "" @C09
 //@   ensures [table-still-wellformed] tbl(ct.Table)
+//@   ensures [returns-exactly-what-RenderTo-wrote] result1 == nil ==> result0 == wcat(Wchunk, old(Wn), Wn) @C10
+//@   call RenderTo before ghost renderStart = Wn
 //@   call RenderTo before ghost Wfailed = false
 
 //@ func Render
